@@ -24,6 +24,7 @@ typedef struct {
     vnacal_type_t type;
     int rows, cols;
     int mini;		/* reduced universe (3 ports in the quick tier) */
+    int unk;		/* universe with unknown standard parameters */
 } shape_t;
 
 static const shape_t shapes_quick[] = {
@@ -44,6 +45,17 @@ static const shape_t shapes_quick[] = {
     { VNACAL_TE10, 3, 3, 1 }, { VNACAL_UE10, 3, 3, 1 },
     { VNACAL_UE14, 3, 3, 1 }, { VNACAL_E12, 3, 3, 1 },
     { VNACAL_T8, 3, 3, 1 },
+    /* universes with two unknown reflection parameters: the count that
+       must be reached is unknown error terms plus unknown parameters */
+    { VNACAL_T8, 1, 1, 0, 1 },   { VNACAL_U8, 1, 1, 0, 1 },
+    { VNACAL_TE10, 1, 1, 0, 1 }, { VNACAL_UE10, 1, 1, 0, 1 },
+    { VNACAL_T16, 1, 1, 0, 1 },  { VNACAL_U16, 1, 1, 0, 1 },
+    { VNACAL_UE14, 1, 1, 0, 1 }, { VNACAL_E12, 1, 1, 0, 1 },
+    { VNACAL_T8, 2, 2, 0, 1 },   { VNACAL_U8, 2, 2, 0, 1 },
+    { VNACAL_TE10, 2, 2, 0, 1 }, { VNACAL_UE10, 2, 2, 0, 1 },
+    { VNACAL_T16, 2, 2, 0, 1 },  { VNACAL_U16, 2, 2, 0, 1 },
+    { VNACAL_UE14, 2, 2, 0, 1 }, { VNACAL_E12, 2, 2, 0, 1 },
+    { VNACAL_T8, 1, 2, 0, 1 },   { VNACAL_UE14, 2, 1, 0, 1 },
 };
 #define NSHAPE_QUICK ((int)(sizeof(shapes_quick) / sizeof(shapes_quick[0])))
 static const shape_t shapes_more[] = {
@@ -71,7 +83,7 @@ static bool is16(vnacal_type_t t)
 }
 
 /* parameter slots of the universe */
-enum { PM, PO, PS, PR4, PL11, PL12, PL21, PL22, PD0 };
+enum { PM, PO, PS, PR4, PL11, PL12, PL21, PL22, PD0, PU1 = PD0 + 8, PU2 };
 
 static void add_std(cs_scenario *sc, int entry, int np, int p1, int p2,
 	const int *sp, const cs_c *sv)
@@ -114,6 +126,35 @@ static int universe(cs_scenario *sc, const shape_t *sh, int tier)
 	sc->param[PD0 + k] = p;
     }
     sc->nparam = PD0 + 8;
+    if (sh->unk) {
+	static const int dr[5][2] = { {PM,PM}, {PS,PO}, {PO,PS}, {PU1,PU2},
+	    {PU2,PU1} };
+	memset(&p, 0, sizeof(p));
+	p.kind = CSP_UNKNOWN; p.handle = -1;
+	p.guess_scale = 1.02 * cexp(0.03 * I);
+	p.c0 = 0.5 - 0.3 * I;   sc->param[PU1] = p;
+	p.c0 = -0.2 + 0.6 * I;  sc->param[PU2] = p;
+	sc->nparam = PU2 + 1;
+	if (P == 1) {
+	    int r[6] = { PS, PO, PM, PR4, PU1, PU2 };
+	    for (int k = 0; k < 6; ++k)
+		add_std(sc, CSE_SINGLE, 1, 1, 0, &r[k], NULL);
+	    return sc->nstd;
+	}
+	add_std(sc, CSE_THROUGH, 2, 1, 2, NULL, through_v);
+	for (int k = 0; k < 5; ++k) {
+	    int sp[4] = { dr[k][0], -1, -1, dr[k][1] };
+	    add_std(sc, CSE_DOUBLE, 2, 1, 2, sp, NULL);
+	}
+	if (is16(sh->type)) {
+	    int sp[4] = { PS, -1, -1, PM };
+	    add_std(sc, CSE_DOUBLE, 2, 1, 2, sp, NULL);
+	} else {
+	    int u1 = PU1;
+	    add_std(sc, CSE_SINGLE, 1, 1, 0, &u1, NULL);
+	}
+	return sc->nstd;
+    }
 
     if (is16(sh->type)) {
 	if (P == 1) {
@@ -218,8 +259,9 @@ static void init(int tier)
 }
 
 /* identifiability cache for the current worker */
-typedef struct { signed char known, ident; short eqs; float margin; } icache_t;
+typedef struct { signed char known, ident; short eqs, eqtot, unktot; float margin; } icache_t;
 static icache_t *icache[64];
+static int g_eqtot, g_unktot;	/* totals of the last classify() */
 
 static void classify(int shp, const cs_scenario *uni, unsigned mask,
 	int *ident, long double *margin, int *eqs, int *unk)
@@ -234,8 +276,12 @@ static void classify(int shp, const cs_scenario *uni, unsigned mask,
 	c->ident = (signed char)cs_identifiable(uni, mask, &m, &e, &u);
 	c->margin = (float)m;
 	c->eqs = (short)(e > 30000 ? 30000 : e);
+	c->eqtot = (short)cs_last_eq_total;
+	c->unktot = (short)cs_last_unknown_total;
 	c->known = 1;
     }
+    g_eqtot = c->eqtot;
+    g_unktot = c->unktot;
     /* unknown count is a function of the shape only */
     {
 	long double m; int e;
@@ -320,8 +366,9 @@ static void run(int tier, long idx, vf_result *r)
 	for (int i = 0; i < n && off < sizeof(b) - 8; ++i)
 	    off += (size_t)snprintf(b + off, sizeof(b) - off, "%s%d",
 		    i ? "," : "", seq[i]);
-	vf_desc(r, "%s %dx%d universe of %d standards, add order [%s], solve "
-		"after each", tname, sh->rows, sh->cols, nL, b);
+	vf_desc(r, "%s %dx%d universe of %d standards%s, add order [%s], "
+		"solve after each", tname, sh->rows, sh->cols, nL,
+		sh->unk ? " (two unknown reflections)" : "", b);
     }
 
     unsigned long mark = vf_exec_begin();
@@ -342,6 +389,10 @@ static void run(int tier, long idx, vf_result *r)
 	goto out;
     }
     int n_fail = 0, n_ok = 0, n_a = 0, n_b = 0;
+    /* unknown parameters are found iteratively from a guess 2 % / 1.7
+       degrees off: well-determined sets only, result to 1e-4 */
+    const long double min_margin = sh->unk ? 1e-3L : 1e-6L;
+    const double dut_tol = sh->unk ? 1e-4 : 1e-8;
     unsigned cur = 0;
     int last_ident = 0;
     for (int step = 0; step <= n; ++step) {
@@ -387,16 +438,24 @@ static void run(int tier, long idx, vf_result *r)
 	} else {
 	    ++n_ok;
 	}
+	/* with unknown standard parameters the count to reach is the sum
+	   over all systems plus the parameters in use (an under-determined
+	   total is under-determined however it is spread) */
+	if (sh->unk) {
+	    eqs = g_eqtot;
+	    unk = g_unktot;
+	}
 	if (eqs < unk) {
 	    ++n_a;
 	    if (rc == 0) {
 		snprintf(sig, sizeof(sig), "solved-underdetermined:%s", tname);
 		vf_fail(r, sig, "vnacal_new_solve succeeded with %d "
-			"measurement equations for %d unknown error terms "
-			"(after %d standards)", eqs, unk, step);
+			"measurement equations for %d unknown error terms%s "
+			"(after %d standards)", eqs, unk, sh->unk ?
+			" and unknown standard parameters" : "", step);
 		goto out;
 	    }
-	} else if (ident && margin >= 1e-6L) {
+	} else if (ident && margin >= min_margin) {
 	    ++n_b;
 	    if (rc != 0) {
 		snprintf(sig, sizeof(sig), "solve-failed:%s", tname);
@@ -408,7 +467,7 @@ static void run(int tier, long idx, vf_result *r)
 		goto out;
 	    }
 	}
-	last_ident = (ident && margin >= 1e-6L);
+	last_ident = (ident && margin >= min_margin);
     }
     /* final set determining: must correct DUTs, and equal a fresh object */
     if (last_ident && cs_apply_ok(&uni.vna)) {
@@ -424,12 +483,12 @@ static void run(int tier, long idx, vf_result *r)
 	ok2 = 0;
 	if (vnp2 != NULL && vnacal_new_solve(vnp2) == 0)
 	    e2 = dut_error(vcp, vnp2, "at-once", &once, r, &ok2);
-	if (!ok1 || !(e1 <= 1e-8)) {
+	if (!ok1 || !(e1 <= dut_tol)) {
 	    char sig[120];
 	    snprintf(sig, sizeof(sig), "apply-wrong:%s", tname);
 	    vf_fail(r, sig, "calibration accumulated with %d failed solve "
 		    "attempts corrects the DUT with error %.3e", n_fail, e1);
-	} else if (!ok2 || !(e2 <= 1e-8)) {
+	} else if (!ok2 || !(e2 <= dut_tol)) {
 	    char sig[120];
 	    snprintf(sig, sizeof(sig), "apply-wrong-fresh:%s", tname);
 	    vf_fail(r, sig, "fresh object given the same set at once: "
@@ -439,7 +498,7 @@ static void run(int tier, long idx, vf_result *r)
     } else if (n_a + n_b > 0) {
 	r->nontrivial = 1;
     }
-    vf_outcome(r, "%s a:%s b:%s fails:%s", tname, n_a ? "y" : "n",
+    vf_outcome(r, "%s%s a:%s b:%s fails:%s", tname, sh->unk ? " unk" : "", n_a ? "y" : "n",
 	    n_b ? "y" : "n", n_fail ? (n_ok ? "some" : "all") : "none");
 out:
     cs_delete_params(vcp, &uni);
